@@ -7,6 +7,7 @@ import tempfile
 
 import numpy as np
 
+from props import _fd_xproc
 from vlib import core
 from vlib.core import Outcome, line
 
@@ -110,6 +111,9 @@ class C13(core.Property):
           'start round, history of sample()/set_round_num(r) calls incl. sample() calls whose dataset loading fails '
           'once - before the first client or after j clients of the lazy get_clients - followed by the plain retry), '
           'large populations (1000..5000 one-example clients, cohorts 20..500 <= population/10, a few dozen rounds) '
+          'LONG histories on one sampler object (>= 130 consecutive rounds, jumps of 63/64/65/127/128/129 rounds forward '
+          'and back, streaming runs of >= 135 rounds restarted at 1/30/63/64/65), one pair of fresh interpreters with '
+          'different PYTHONHASHSEED per run over a sliced dataset (listings, shuffled passes, both samplers) '
           'and streaming restarts (buffer, stream seed, cohort, start round r0, k calls); non-trivial = history has '
           '>= 2 sample() calls with a jump or a failed sample, or stream restart with r0 >= 1; distinct by case digest')
   TRUSTED = ['numpy RandomState determinism and choice(replace=False) returning distinct members of its '
@@ -202,7 +206,16 @@ class C13(core.Property):
         7 + 40 * j: (N, n) for j, (N, n) in enumerate(
             [(1000, 100), (1000, 20), (2000, 100), (2000, 200), (2000, 50), (5000, 200), (5000, 120), (5000, 500),
              (1000, 100), (3000, 300), (1500, 150), (2000, 100), (1000, 101), (999, 99), (5000, 20), (2000, 199)])}
+    long_at = ({12: 'consecutive', 30: 'stream', 70: 'jumps', 110: 'stream'} if tier == 'quick' else
+               {11 + 29 * j: w for j, w in enumerate(['consecutive', 'stream', 'jumps', 'stream', 'chain'] * 5)})
+    xproc_at = {20} if tier == 'quick' else {20, 520, 1020}
     for i in range(ncases):
+      if i in xproc_at:
+        yield self.gen_xproc(rng)
+        continue
+      if i in long_at:
+        yield self.gen_long(rng, long_at[i])
+        continue
       if i in large:
         # large population, small cohort: a few dozen rounds, mostly sequential, some jumps, one failed load
         N, n = large[i]
@@ -252,7 +265,88 @@ class C13(core.Property):
       yield {'kind': 'get', 'backend': backend, 'ids': ids, 'seed': seed, 'n': n,
              'r0': rng.choice([0, 0, 1, 3, 100]), 'ops': ops}
 
+  def gen_long(self, rng, which):
+    """LONG histories on ONE sampler object (>= 130 rounds; jumps of 63/64/65/127/128/129 rounds): whatever a
+    sampler caches per block of rounds must not leak across block boundaries."""
+    nc = rng.choice([2, 3, 4, 5])
+    ids = gen_ids(rng, nc)
+    backend = rng.choice(['mem', 'mem', 'sqlite'])
+    if which == 'stream':
+      r0 = rng.choice([1, 30, 63, 64, 65, rng.randrange(2, 63)])
+      return {'kind': 'stream', 'backend': backend, 'ids': ids, 'n': rng.choice([1, 2, 3]), 'r0': r0,
+              'k': rng.randrange(136, 200) - r0, 'buffer': rng.choice([1, 2, nc, 100]), 'sseed': rng.randrange(0, 1000)}
+    n = rng.choice([1, min(2, nc)])
+    seed = rng.choice([0, 1, rng.randrange(0, 2**32)])
+    if which == 'consecutive':
+      ops = [-1] * rng.randrange(130, 141)
+      ops.insert(rng.randrange(1, len(ops)), [-2, 0])
+      return {'kind': 'get', 'backend': backend, 'ids': ids, 'seed': seed, 'n': n, 'r0': rng.choice([0, 3, 100]),
+              'ops': ops}
+    ds = [63, 64, 65, 127, 128, 129]
+    rng.shuffle(ds)
+    b = rng.randrange(0, 50)
+    if which == 'jumps':      # from the same round b forward by d and back, for every d
+      ops = [b, -1]
+      for d in ds:
+        ops += [b + d, -1, b, -1]
+      ops += [b + 200, -1]
+      for d in ds:            # backward by d, then forward again
+        ops += [b + 200 - d, -1, b + 200, -1]
+    else:                     # chains: each jump starts where the previous one landed
+      cur = b
+      ops = [cur, -1]
+      for d in ds + ds[:3]:
+        cur += d
+        ops += [cur, -1]
+      for d in ds:
+        cur = max(0, cur - d)
+        ops += [cur, -1, -1]
+    return {'kind': 'get', 'backend': backend, 'ids': ids, 'seed': seed, 'n': n, 'r0': rng.choice([0, b]), 'ops': ops}
+
+  def gen_xproc(self, rng):
+    """One sliced dataset observed in this process and in two fresh interpreters with different hash salts."""
+    k = rng.randrange(9, 14)
+    pool = list(ID_POOL)
+    rng.shuffle(pool)
+    ids = [c for c in pool if c][:6]
+    j = 0
+    while len(ids) < k:
+      ids.append(b'%03d' % j + (b'\x00' if rng.random() < 0.3 else b''))
+      j += 1
+    rng.shuffle(ids)                                    # insertion order of the mapping / of the SQLite rows
+    srt = sorted(ids)
+    slices = [[srt[1].hex(), None if rng.random() < 0.5 else srt[-1].hex()]]
+    if rng.random() < 0.4:
+      slices.append([None, srt[-2].hex()])
+    x = rng.randrange(0, 1000)
+    return {'kind': 'xproc', 'hashseeds': [1 + 2 * x, 2 + 2 * x],
+            'spec': {'table': [[c.hex(), [10 * t + 1 + r for r in range(t % 3 + 1)]] for t, c in enumerate(ids)],
+                     'slices': slices, 'buffer': rng.choice([2, 3, 100]), 'seed': rng.randrange(0, 1000),
+                     'cohort': rng.choice([2, 3]), 'r0': 2, 'rounds': 6, 'gseed': rng.randrange(0, 1000)}}
+
   def shrink(self, case):
+    if case['kind'] == 'xproc':
+      sp = case['spec']
+      t = sp['table']
+      if len(sp['slices']) > 1:
+        yield {**case, 'spec': {**sp, 'slices': sp['slices'][:1]}}
+      if len(t) > 4:
+        yield {**case, 'spec': {**sp, 'table': t[:len(t) // 2 + 1]}}
+        yield {**case, 'spec': {**sp, 'table': t[len(t) // 2 - 1:]}}
+        yield {**case, 'spec': {**sp, 'table': t[:-1]}}
+      return
+    if len(case.get('ops', [])) > 12:
+      ops = case['ops']           # long histories: drop whole blocks first
+      for size in (len(ops) // 2, len(ops) // 4, len(ops) // 8):
+        for a in range(0, len(ops), max(1, size)):
+          c = ops[:a] + ops[a + size:]
+          if -1 in c and not isinstance(c[-1], list):
+            yield {**case, 'ops': c}
+    if case['kind'] == 'stream' and case['k'] > 8:
+      yield {**case, 'k': case['k'] // 2}
+      yield {**case, 'k': case['k'] - 8}
+    if case['kind'] == 'stream' and case['r0'] > 8:
+      yield {**case, 'r0': case['r0'] // 2}
     if case['kind'] == 'get':
       ops = case['ops']
       for i in range(len(ops)):
@@ -301,6 +395,8 @@ class C13(core.Property):
   def evaluate(self, case, ctx):
     if case['kind'] == 'stream':
       return self._eval_stream(case, ctx)
+    if case['kind'] == 'xproc':
+      return self._eval_xproc(case, ctx)
     cs = self.cs
     ids_hex = case_ids(case)
     big = len(ids_hex) >= 500
@@ -464,7 +560,10 @@ class C13(core.Property):
             'trailing0' if any(h.endswith('00') for h in ids_hex) else 'plain-ids',
             'biground' if any(isinstance(o, int) and o > 10**5 for o in ops) else 'smallround',
             f'failed-samples={min(nfail, 2)}', f'retries-after-failure={min(len(after_failure), 2)}',
-            f'population={"<500" if not big else len(ids_hex)}')
+            f'population={"<500" if not big else len(ids_hex)}') + (
+                ('long-history',) if len(outs) >= 100 else ()) + (
+                ('block-jumps',) if any(abs(a - b) in (63, 64, 65, 127, 128, 129)
+                                        for a, b in zip(rounds_at, rounds_at[1:])) else ())
     return Outcome(oracle_fail='; '.join(problems[:4]) or None, corr_fail='; '.join(corr[:3]) or None,
                    key=key, nontrivial=len(outs) >= 2 and (jumps >= 1 or nfail >= 1), tags=tags,
                    detail={'impl': outs[:6] if not big else [[m[0] for m in o] for o in outs[:3]],
@@ -490,11 +589,28 @@ class C13(core.Property):
       j = next(i for i in range(k) if outs_b[i] != outs_a[r0 + i])
       problems.append(f'sampler started at round {r0}: its call {j} differs from call {r0 + j} of the sampler '
                       f'started at round 0: {outs_b[j]} vs {outs_a[r0 + j]}')
+    seen = {}
     for r, out in enumerate(outs_a):
       ks = [tuple(m[2]) for m in out]
       if len(set(ks)) != len(ks):
         key = key or 'C13/stream/keys'
         problems.append(f'round {r}: client keys not pairwise distinct')
+      for kk in ks:
+        if kk in seen and seen[kk] != r:
+          key = key or 'C13/stream/keys'
+          if len(problems) < 4:
+            problems.append(f'streaming sampler started at round 0 handed out key {kk} in rounds {seen[kk]} and {r}')
+        seen.setdefault(kk, r)
+    seen = {}
+    for j, out in enumerate(outs_b):
+      for kk in (tuple(m[2]) for m in out):
+        if kk in seen and seen[kk] != j:
+          key = key or 'C13/stream/keys'
+          if len(problems) < 4:
+            problems.append(f'streaming sampler started at round {r0} handed out key {kk} in rounds '
+                            f'{r0 + seen[kk]} and {r0 + j}')
+        seen.setdefault(kk, j)
+    for r, out in enumerate(outs_a):
       for h, rows, _ in out:
         cid = bytes.fromhex(h)
         if cid not in tab or rows != [int(v) for v in tab[cid]['x']]:
@@ -522,8 +638,61 @@ class C13(core.Property):
     tags = ('stream', case['backend'], f'r0={min(r0, 3)}', 'n>clients' if n > nc else 'n<=clients',
             'buffer>=clients' if buf >= nc else 'buffer<clients')
     return Outcome(oracle_fail='; '.join(problems[:3]) or None, corr_fail='; '.join(corr[:3]) or None, key=key,
-                   nontrivial=r0 >= 1, tags=tags,
-                   detail={'from0': outs_a[:4], 'restarted': outs_b[:4], 'model': ans[0]})
+                   nontrivial=r0 >= 1, tags=tags + (('long-history',) if r0 + k >= 130 else ()),
+                   detail={'from0': outs_a[:4], 'restarted': outs_b[:4],
+                           'model': ans[0] if r0 + k < 20 else ans[0][1:]})
+
+  def _eval_xproc(self, case, ctx):
+    """The same sliced dataset, streams and samplers in this process and in two fresh interpreters that differ
+    only in PYTHONHASHSEED: every listing, every shuffled pass and every sampled round must be identical."""
+    spec, (h1, h2) = case['spec'], case['hashseeds']
+    tags = ('xproc', f'slices={len(spec["slices"])}')
+    try:
+      mine = _fd_xproc.run_spec(spec, tmpdir=tempfile.mkdtemp(prefix='xm_', dir=self.tmp))
+    except Exception as e:
+      return Outcome(oracle_fail=f'building / reading the sliced dataset raised {type(e).__name__}: {e}',
+                     key='C13/xproc/exception', tags=tags)
+    try:
+      kids = _fd_xproc.probe(spec, [h1, h2], os.path.join(core.VERIF, 'harness'), core.REPO, self.tmp)
+    except RuntimeError as e:
+      raise core.InfraError(str(e))
+    ctx.count('cross_process_probes')
+    problems, key = [], None
+    for a, b, who in ((kids[h1], kids[h2], f'PYTHONHASHSEED={h1} vs PYTHONHASHSEED={h2}'),
+                      (mine, kids[h1], f'this process vs a fresh interpreter (PYTHONHASHSEED={h1})')):
+      for impl in sorted(a):
+        if a[impl] != b.get(impl):
+          key = key or 'C13/xproc/process-dependent'
+          problems.append(f'{impl}: the same sliced dataset ({len(spec["table"])} clients, slices {spec["slices"]}, '
+                          f'shuffled_clients({spec["buffer"]}, {spec["seed"]}), cohort {spec["cohort"]}) gives different '
+                          f'results in two interpreter processes ({who}), first at '
+                          f'{_fd_xproc.first_difference(a[impl], b.get(impl))} - iteration order / sampled rounds '
+                          f'depend on the per-process salt of hash()')
+          break
+      if problems:
+        break
+    # what each single record must satisfy anyway (plain statement of the property on this process's record)
+    want = sorted(c for c, _ in ((bytes.fromhex(h), r) for h, r in spec['table'])
+                  if all((s is None or bytes.fromhex(s) <= c) and (e is None or c < bytes.fromhex(e))
+                         for s, e in spec['slices']))
+    for impl, rec in sorted(mine.items()):
+      nm = (lambda c: 's:' + c.decode('latin-1')) if impl == 'memstr' else (lambda c: c.hex())
+      ids = sorted(nm(c) for c in want)
+      if sorted(rec['client_ids']) != ids or sorted(c for c, _ in rec['clients']) != ids:
+        key = key or 'C13/xproc/ids'
+        problems.append(f'{impl}: sliced view lists {rec["client_ids"]} / {[c for c, _ in rec["clients"]]}, expected {ids}')
+      if ids:
+        n = len(ids)
+        for t in range(3):
+          if sorted(rec.get('shuffled', [])[t * n:(t + 1) * n]) != ids:
+            key = key or 'C13/xproc/shuffled'
+            problems.append(f'{impl}: pass {t} of shuffled_clients is not every client once')
+        if rec.get('stream_from_r0') != rec.get('stream_from0', [])[spec['r0']:]:
+          key = key or 'C13/stream/restart'
+          problems.append(f'{impl}: streaming sampler restarted at round {spec["r0"]} differs from the original run')
+    return Outcome(oracle_fail='; '.join(problems[:3]) or None, key=key, nontrivial=True, tags=tags,
+                   detail={'this_process': {k: {f: v[f] for f in ('client_ids', 'shuffled') if f in v}
+                                            for k, v in mine.items()}})
 
 
 PROPERTY = C13
